@@ -10,6 +10,10 @@ def main(argv):
     pid = argv[0].upper()
     modname = 'checks.' + pid.lower()
     sys.path.insert(0, os.path.dirname(os.path.dirname(os.path.abspath(__file__))))
+    root = os.environ.get('VERIF_REPO_ROOT')
+    if root:
+        # the replay side must import the same tree the twin is built from
+        sys.path.insert(0, os.path.join(root, 'src'))
     if argv[1] == '--replay':
         from . import replay
         return replay.main(modname, argv[2])
